@@ -9,13 +9,17 @@ package main
 //         I<p>    owner p calls instantGet        B<p>  owner p calls blockGet
 //         C<s>.<k> commit the k-th taken, un-committed event of stream s
 //         T       one round of streamer.heartbeat with eventTimeout = 0
+//         U<s>.<t>[.<u>]  a burst: puts on streams s, t, u back to back while the process has ONE scheduler
+//                 thread (GOMAXPROCS(1)), so that a processor signalled by the first makeCharged cannot pop
+//                 before the later ones have charged: the charge, charge, pop order, without timing
 // result: the trace, one token group per trace point (vocabulary of Model/Stream.lean):
 //   put s off seq | charge s | pop p s | park p | attach p s | get p s off seq k | leave p s |
-//   detach s | commit s seq | stale s seq | bwait p s | timeout s
+//   detach s | commit s seq | stale s seq | bwait p s | timeout s   …   end <joinStream sleepers> <len charged>
 
 import (
 	"bufio"
 	"fmt"
+	"runtime"
 	"strconv"
 	"strings"
 	"sync"
@@ -305,6 +309,35 @@ func (run *strRun) apply(op string) bool {
 	if len(op) < 2 {
 		return false
 	}
+	if op[0] == 'U' {
+		var sids []int
+		for _, f := range strings.Split(op[1:], ".") {
+			id, err := strconv.Atoi(f)
+			if err != nil || id < 0 || id >= len(run.nextOff) {
+				return false
+			}
+			sids = append(sids, id)
+		}
+		type pe struct {
+			sid int
+			off int64
+		}
+		var puts []pe
+		run.mu.Lock()
+		for _, id := range sids {
+			run.nextOff[id]++
+			off := int64(id+1)*1000 + run.nextOff[id]
+			run.offSid[off] = id
+			puts = append(puts, pe{id, off})
+		}
+		run.mu.Unlock()
+		prev := runtime.GOMAXPROCS(1)
+		for _, q := range puts {
+			run.v.Put(uint64(q.sid), "", q.off)
+		}
+		runtime.GOMAXPROCS(prev)
+		return true
+	}
 	arg := op[1:]
 	k := 0
 	if i := strings.IndexByte(arg, '.'); i >= 0 {
@@ -470,9 +503,8 @@ func execStream(t *hx.Toks) string {
 	if unsettled {
 		out += " unsettled"
 	}
-	if out == "" {
-		out = "-"
-	}
+	// the streamer's own state at the quiescent end
+	out = strings.TrimSpace(out + fmt.Sprintf(" end %d %d", run.v.JoinWaiters(), len(run.v.Charged())))
 	return out
 }
 
@@ -492,6 +524,43 @@ func genStreams(w *bufio.Writer, rng *hx.Rng, tier string) {
 	}
 	for _, f := range fixed {
 		fmt.Fprintln(w, f)
+	}
+	// back-to-back charges while several processors sleep in joinStream: every sleeper that is
+	// needed must be signalled (one Signal per makeCharged), every charged stream attended
+	for np := 2; np <= 4; np++ {
+		for ns := 2; ns <= np; ns++ {
+			var ops []string
+			for p := 0; p < np; p++ {
+				ops = append(ops, fmt.Sprintf("J%d", p))
+			}
+			var b []string
+			for s := 0; s < ns; s++ {
+				b = append(b, strconv.Itoa(s))
+			}
+			ops = append(ops, "U"+strings.Join(b, "."))
+			for p := 0; p < np; p++ {
+				ops = append(ops, fmt.Sprintf("A%d", p))
+			}
+			for p := 0; p < np; p++ {
+				ops = append(ops, fmt.Sprintf("I%d", p))
+			}
+			fmt.Fprintf(w, "c04.stream %d %d %s\n", np, ns, strings.Join(ops, " "))
+			// a busy stream plus another one charged in the same burst; the owner of the busy one
+			// blocks behind it (blockGet), the other stream must still be attended
+			ops2 := append(append([]string(nil), ops[:np]...), "U"+strings.Join(b, "."), "A0", "I0", "B0", fmt.Sprintf("P%d", ns-1), "B0")
+			for p := 1; p < np; p++ {
+				ops2 = append(ops2, fmt.Sprintf("A%d", p), fmt.Sprintf("I%d", p))
+			}
+			fmt.Fprintf(w, "c04.stream %d %d %s\n", np, ns, strings.Join(ops2, " "))
+		}
+	}
+	// whole pipeline: a never-drying stream and another one charged in the same burst
+	nb := 4
+	if tier == "thorough" {
+		nb = 24
+	}
+	for i := 0; i < nb; i++ {
+		fmt.Fprintf(w, "c04.burst %s %d %d\n", []string{"lowmem", "std"}[i%2], 200+100*(i%3), 100+50*(i%4))
 	}
 	for i := 0; i < n; i++ {
 		np := rng.Range(1, 3)
@@ -576,6 +645,12 @@ func genStreamScript(rng *hx.Rng, np, ns, nops int) []string {
 		if anyBlocked {
 			cand = append(cand, "T", "T")
 		}
+		if ns >= 2 {
+			a, b := rng.Intn(ns), rng.Intn(ns)
+			if a != b {
+				cand = append(cand, fmt.Sprintf("U%d.%d", a, b), fmt.Sprintf("U%d.%d", a, b))
+			}
+		}
 		if rng.Chance(1, 12) {
 			// an op that may not apply
 			cand = []string{fmt.Sprintf("%c%d", "JAIB"[rng.Intn(4)], rng.Intn(np))}
@@ -584,6 +659,26 @@ func genStreamScript(rng *hx.Rng, np, ns, nops int) []string {
 		ops = append(ops, op)
 		var a, k int
 		fmt.Sscanf(strings.Replace(op[1:], ".", " ", 1), "%d %d", &a, &k)
+		if op[0] == 'U' {
+			// coarse: as two puts (the generator's simulation only steers applicability)
+			for _, sid := range []int{a, k} {
+				x := &ss[sid]
+				x.cur++
+				empty := len(x.q) == 0
+				x.q = append(x.q, x.cur)
+				if empty {
+					if !x.attached {
+						charge(sid)
+					}
+					for p := 0; p < np; p++ {
+						if pst[p] == 'b' && psid[p] == sid {
+							take(p, sid)
+						}
+					}
+				}
+			}
+			continue
+		}
 		switch op[0] {
 		case 'P':
 			x := &ss[a]
